@@ -1,3 +1,4 @@
+import NimaVerif.Lemmas.NameAgree
 import NimaVerif.Lemmas.EditOps
 /-!
 # C05 — a successful edit yields exactly the requested attribute change
@@ -7,6 +8,8 @@ The theorems relate `setValue` / `removeValue` of `Model/Edit.lean` to that spec
 path text and value in the stated class.
 -/
 namespace Nima.C05
+-- name tokens are compared by spelling in this file (see `NameCmp` in Model/Edit.lean)
+attribute [local instance] NameCmp.spelled
 open Nima Node
 
 /-- "the value now at the path is not a reference": neither an identifier-valued binding nor an
@@ -72,7 +75,7 @@ theorem set_nested_explicit_refines (d : Doc) (hw : WF d) (p : Text) (seg0 seg1 
           rw [hsplit]; exact hnoref
         | false =>
           have : par.setValues = [] := by cases par <;> simp_all [isSet, setValues]
-          exact ⟨fun b hb => by simp [this, findBinding] at hb, by simp [this, inheritMentions]⟩
+          exact ⟨fun b hb => by simp [this, findBinding_spelled] at hb, by simp [this, inheritMentions]⟩
       rw [← ht] at hwk
       obtain ⟨_, Y, hY, hd⟩ := nested_set_refines (Node.set c vs o m r) true final v _ d d.target [] parent d1 d'
         hinv rfl hw.isSet hplain hfin hwk hfs
@@ -593,7 +596,7 @@ theorem cex_inherit_duplicate :
 theorem cex_set_plain_full : ¬ set_plain_full := by
   intro h
   obtain ⟨d', e, hs⟩ := h docInherit "v".toList "v".toList (A "7") docInherit_wf rfl rfl
-    (fun b hb => by simp [docInherit, setValues, findBinding, isBind] at hb)
+    (fun b hb => by simp [docInherit, setValues, findBinding_spelled, isBind] at hb)
   have h1 := cex_inherit_duplicate.2.2
   have : d' = (setValue "v".toList (.one (A "7")) docInherit).2 := by rw [e]
   rw [this] at hs
@@ -910,5 +913,160 @@ example : ∀ d', setValue "x.z".toList (.one (.atom "5".toList)) docEx = (.ok (
       (docEx.target.setOrder.isEmpty = false → d'.target.setOrder.getLast? =
         some (.entry ["x".toList, "z".toList] (.bind bid final false (.atom "5".toList) [] []) none none)) :=
   set_attrpath_entry_appended docEx docEx_wf "x.z".toList "x".toList "z".toList [] _ rfl rfl rfl
+
+/-! ## For the repaired code (`NameCmp.model`, i.e. lookups through `_same_attr_name`)
+
+Everything above is stated for the name comparison by spelling (`NameCmp.spelled`, declared at the head
+of this file). `setValue_model_eq_spelled` / `removeValue_model_eq_spelled` (Lemmas/NameAgree.lean) make
+it a statement about the model of the repaired code under the decidable side condition
+`NameAgree.noSpellingClash d p`: among the name tokens of the document and the keys of the path no two are
+different spellings of one Nix name. The single-operation theorems restated that way (hypotheses about
+lookups keep the comparison by spelling, which is the code's on such inputs): -/
+
+theorem repaired_set_is_spelled (p : Text) (v : ValueArg) (d : Doc) (hns : NameAgree.noSpellingClash d p) :
+    @setValue NameCmp.model p v d = setValue p v d := NameAgree.setValue_model_eq_spelled p v d hns
+
+theorem repaired_rm_is_spelled (p : Text) (d : Doc) (hns : NameAgree.noSpellingClash d p) :
+    @removeValue NameCmp.model p d = removeValue p d := NameAgree.removeValue_model_eq_spelled p d hns
+
+theorem set_plain_refines_repaired (d : Doc) (hw : WF d) (p seg : Text) (v : Node)
+    (hp : formatNPath currentAnchor p = .ok [seg])
+    (hroot : findAttrpathRoot d.target.setValues seg = none)
+    (hnoref : NoRefAt (denote d.target) [seg])
+    (hns : NameAgree.noSpellingClash d p) :
+    ∃ d', @setValue NameCmp.model p (.one v) d = (.ok (), d') ∧
+      specSet (denote d.target) [seg] v = some (denote d'.target) := by
+  simp only [NameAgree.setValue_model_eq_spelled p _ d hns, NameAgree.removeValue_model_eq_spelled p d hns] at *
+  exact set_plain_refines d hw p seg v hp hroot hnoref
+
+theorem set_nested_explicit_refines_repaired (d : Doc) (hw : WF d) (p : Text) (seg0 seg1 : Text) (rest : List Text) (v : Node)
+    (hp : formatNPath currentAnchor p = .ok (seg0 :: seg1 :: rest))
+    (hroot : findAttrpathRoot d.target.setValues seg0 = none)
+    (hplain : ∀ k ∈ (seg0 :: seg1 :: rest).dropLast, plainKey k = true)
+    (hfresh : FreshFor d.target d.next (2 * (rest.length + 1)))
+    (hnoref : NoRefAt (denote d.target) (seg0 :: seg1 :: rest))
+    (d' : Doc) (hrun : @setValue NameCmp.model p (.one v) d = (.ok (), d'))
+    (hns : NameAgree.noSpellingClash d p) :
+    specSet (denote d.target) (seg0 :: seg1 :: rest) v = some (denote d'.target) := by
+  simp only [NameAgree.setValue_model_eq_spelled p _ d hns, NameAgree.removeValue_model_eq_spelled p d hns] at *
+  exact set_nested_explicit_refines d hw p seg0 seg1 rest v hp hroot hplain hfresh hnoref d' hrun
+
+theorem rm_plain_refines_repaired (d : Doc) (hw : WF d) (p seg : Text)
+    (hp : formatNPath currentAnchor p = .ok [seg])
+    (hroot : findAttrpathRoot d.target.setValues seg = none)
+    (hex : (findBinding d.target.setValues seg).isSome = true)
+    (hns : NameAgree.noSpellingClash d p) :
+    ∃ d', @removeValue NameCmp.model p d = (.ok (), d') ∧
+      specRemove (denote d.target) [seg] false = some (denote d'.target) := by
+  simp only [NameAgree.setValue_model_eq_spelled p _ d hns, NameAgree.removeValue_model_eq_spelled p d hns] at *
+  exact rm_plain_refines d hw p seg hp hroot hex
+
+theorem rm_nested_explicit_refines_repaired (d : Doc) (hw : WF d) (p : Text) (seg0 seg1 : Text) (rest : List Text)
+    (hp : formatNPath currentAnchor p = .ok (seg0 :: seg1 :: rest))
+    (hroot : findAttrpathRoot d.target.setValues seg0 = none)
+    (hplain : ∀ k ∈ (seg0 :: seg1 :: rest).dropLast, plainKey k = true)
+    (d' : Doc) (hrun : @removeValue NameCmp.model p d = (.ok (), d'))
+    (hns : NameAgree.noSpellingClash d p) :
+    specRemove (denote d.target) (seg0 :: seg1 :: rest) false = some (denote d'.target) := by
+  simp only [NameAgree.setValue_model_eq_spelled p _ d hns, NameAgree.removeValue_model_eq_spelled p d hns] at *
+  exact rm_nested_explicit_refines d hw p seg0 seg1 rest hp hroot hplain d' hrun
+
+theorem set_attrpath_root_refused_repaired (d : Doc) (hw : WF d) (p seg : Text) (v : Node)
+    (hp : formatNPath currentAnchor p = .ok [seg])
+    (hroot : (findAttrpathRoot d.target.setValues seg).isSome = true)
+    (hns : NameAgree.noSpellingClash d p) :
+    @setValue NameCmp.model p (.one v) d = (.error .value, d) := by
+  simp only [NameAgree.setValue_model_eq_spelled p _ d hns, NameAgree.removeValue_model_eq_spelled p d hns] at *
+  exact set_attrpath_root_refused d hw p seg v hp hroot
+
+theorem set_attrpath_leaf_refines_repaired (d : Doc) (hw : WF d) (p : Text) (segs : List Text) (v : Node)
+    (hp : formatNPath currentAnchor p = .ok segs)
+    (hleaf : (findAttrpathLeaf d.target segs).isSome = true)
+    (hns : NameAgree.noSpellingClash d p) :
+    ∃ d', @setValue NameCmp.model p (.one v) d = (.ok (), d') ∧
+      specSet (denote d.target) segs v = some (denote d'.target) := by
+  simp only [NameAgree.setValue_model_eq_spelled p _ d hns, NameAgree.removeValue_model_eq_spelled p d hns] at *
+  exact set_attrpath_leaf_refines d hw p segs v hp hleaf
+
+theorem set_attrpath_new_refines_repaired (d : Doc) (hw : WF d) (p : Text) (seg0 seg1 : Text) (rest : List Text) (v : Node)
+    (hp : formatNPath currentAnchor p = .ok (seg0 :: seg1 :: rest))
+    (hroot : (findAttrpathRoot d.target.setValues seg0).isSome = true)
+    (hleaf : findAttrpathLeaf d.target (seg0 :: seg1 :: rest) = none)
+    (hfresh : FreshFor d.target d.next (2 * rest.length))
+    (d' : Doc) (hrun : @setValue NameCmp.model p (.one v) d = (.ok (), d'))
+    (hns : NameAgree.noSpellingClash d p) :
+    specSet (denote d.target) (seg0 :: seg1 :: rest) v = some (denote d'.target) := by
+  simp only [NameAgree.setValue_model_eq_spelled p _ d hns, NameAgree.removeValue_model_eq_spelled p d hns] at *
+  exact set_attrpath_new_refines d hw p seg0 seg1 rest v hp hroot hleaf hfresh d' hrun
+
+theorem rm_attrpath_refines_repaired (d : Doc) (hw : WF d) (hcoh : Coh d.target) (p : Text) (segs : List Text)
+    (hp : formatNPath currentAnchor p = .ok segs)
+    (hleaf : (findAttrpathLeaf d.target segs).isSome = true)
+    (hns : NameAgree.noSpellingClash d p) :
+    ∃ d', @removeValue NameCmp.model p d = (.ok (), d') ∧
+      specRemove (denote d.target) segs true = some (denote d'.target) := by
+  simp only [NameAgree.setValue_model_eq_spelled p _ d hns, NameAgree.removeValue_model_eq_spelled p d hns] at *
+  exact rm_attrpath_refines d hw hcoh p segs hp hleaf
+
+theorem set_fresh_goes_last_repaired (d : Doc) (hw : WF d) (p seg : Text) (v : Node)
+    (hp : formatNPath currentAnchor p = .ok [seg])
+    (hroot : findAttrpathRoot d.target.setValues seg = none)
+    (hnew : seg ∉ Kids.keys (denote d.target).kids)
+    (hns : NameAgree.noSpellingClash d p) :
+    ∃ d', @setValue NameCmp.model p (.one v) d = (.ok (), d') ∧
+      d'.target.setValues = d.target.setValues ++ [.bind d.next seg false v [] []] ∧
+      d'.target.setOrder = (if d.target.setOrder.isEmpty then []
+        else d.target.setOrder ++ [.bind d.next seg false v [] []]) ∧
+      (denote d'.target).kids = (denote d.target).kids ++ [(seg, denote v)] := by
+  simp only [NameAgree.setValue_model_eq_spelled p _ d hns, NameAgree.removeValue_model_eq_spelled p d hns] at *
+  exact set_fresh_goes_last d hw p seg v hp hroot hnew
+
+theorem set_attrpath_entry_appended_repaired (d : Doc) (hw : WF d) (p : Text) (seg0 seg1 : Text) (rest : List Text) (v : Node)
+    (hp : formatNPath currentAnchor p = .ok (seg0 :: seg1 :: rest))
+    (hroot : (findAttrpathRoot d.target.setValues seg0).isSome = true)
+    (hnew : treeAt (denote d.target) (seg0 :: seg1 :: rest) = none)
+    (d' : Doc) (hrun : @setValue NameCmp.model p (.one v) d = (.ok (), d'))
+    (hns : NameAgree.noSpellingClash d p) :
+    ∃ bid final, (seg0 :: seg1 :: rest).getLast? = some final ∧
+      d'.target.setOrder.length =
+        (if d.target.setOrder.isEmpty then 0 else d.target.setOrder.length + 1) ∧
+      (d.target.setOrder.isEmpty = false →
+        d'.target.setOrder.getLast? =
+          some (.entry (seg0 :: seg1 :: rest) (.bind bid final false v [] []) none none)) := by
+  simp only [NameAgree.setValue_model_eq_spelled p _ d hns, NameAgree.removeValue_model_eq_spelled p d hns] at *
+  exact set_attrpath_entry_appended d hw p seg0 seg1 rest v hp hroot hnew d' hrun
+
+theorem refusal_set_repaired (d : Doc) (hw : WF d) (p : Text) (segs : List Text) (v : Node)
+    (hp : formatNPath currentAnchor p = .ok segs) (hplain : ∀ k ∈ segs.dropLast, plainKey k = true)
+    (e : Err) (d' : Doc) (hrun : @setValue NameCmp.model p (.one v) d = (.error e, d'))
+    (hns : NameAgree.noSpellingClash d p) :
+    DocumentedReason d .set segs e := by
+  simp only [NameAgree.setValue_model_eq_spelled p _ d hns, NameAgree.removeValue_model_eq_spelled p d hns] at *
+  exact refusal_set d hw p segs v hp hplain e d' hrun
+
+theorem refusal_rm_repaired (d : Doc) (hw : WF d) (hcoh : Coh d.target) (p : Text) (segs : List Text)
+    (hp : formatNPath currentAnchor p = .ok segs) (hplain : ∀ k ∈ segs.dropLast, plainKey k = true)
+    (e : Err) (d' : Doc) (hrun : @removeValue NameCmp.model p d = (.error e, d'))
+    (hns : NameAgree.noSpellingClash d p) :
+    DocumentedReason d .rm segs e := by
+  simp only [NameAgree.setValue_model_eq_spelled p _ d hns, NameAgree.removeValue_model_eq_spelled p d hns] at *
+  exact refusal_rm d hw hcoh p segs hp hplain e d' hrun
+
+theorem refusal_scope_set_repaired (d : Doc) (hed : d.noTarget = none) (p rest : Text) (depth : Nat) (v : Node)
+    (hs : splitScopeNpath p = .ok (some (depth, rest)))
+    (hnc : ¬ ((collectScopeLayers d).isEmpty = true ∧ depth = 1))
+    (hd : depth > (collectScopeLayers d).length) (segs : List Text)
+    (hns : NameAgree.noSpellingClash d p) :
+    @setValue NameCmp.model p (.one v) d = (.error .value, d) ∧ DocumentedReason d .set segs .value := by
+  simp only [NameAgree.setValue_model_eq_spelled p _ d hns, NameAgree.removeValue_model_eq_spelled p d hns] at *
+  exact refusal_scope_set d hed p rest depth v hs hnc hd segs
+
+theorem refusal_scope_rm_repaired (d : Doc) (hed : d.noTarget = none) (p rest : Text) (depth : Nat)
+    (hs : splitScopeNpath p = .ok (some (depth, rest)))
+    (hd : depth > (collectScopeLayers d).length) (segs : List Text)
+    (hns : NameAgree.noSpellingClash d p) :
+    @removeValue NameCmp.model p d = (.error .value, d) ∧ DocumentedReason d .rm segs .value := by
+  simp only [NameAgree.setValue_model_eq_spelled p _ d hns, NameAgree.removeValue_model_eq_spelled p d hns] at *
+  exact refusal_scope_rm d hed p rest depth hs hd segs
 
 end Nima.C05
